@@ -220,19 +220,28 @@ def rule_edge_keys(ctx: Ctx) -> None:
     ctx.touch(m, fn)
     adds = [c for c in calls_in(fn) if call_name(c) == "self._add_edge"]
     rems = [norm(c.args[0]) for c in calls_in(fn) if call_name(c) == "self._remove_edge"]
-    guard = any(isinstance(n, ast.If) and norm(n.test) in ("in_edge[2] == out_edge[2]", "out_edge[2] == in_edge[2]") for n in ast.walk(fn))
-    good = len(adds) == 1 and guard and norm(adds[0].args[0]) == "in_edge[0]" and norm(adds[0].args[1]) == "out_edge[1]" \
-        and sorted(rems) == ["in_edge", "out_edge"]
+    # names of the in-edge / out-edge loop variables are read off the re-join call: _add_edge(<in>[0], <out>[1], ...)
+    ie = oe = None
+    if len(adds) == 1 and len(adds[0].args) >= 2:
+        a0, a1 = adds[0].args[0], adds[0].args[1]
+        if isinstance(a0, ast.Subscript) and isinstance(a0.value, ast.Name) and norm(a0.slice) == "0" \
+                and isinstance(a1, ast.Subscript) and isinstance(a1.value, ast.Name) and norm(a1.slice) == "1":
+            ie, oe = a0.value.id, a1.value.id
+    guard = ie is not None and any(isinstance(n, ast.If) and norm(n.test) in (f"{ie}[2] == {oe}[2]", f"{oe}[2] == {ie}[2]")
+                                   and any(x is adds[0] for x in ast.walk(n)) for n in ast.walk(fn))
+    # both names are loop variables over the node's in / out edges
+    loops_ok = ie is not None and all(any(isinstance(l, ast.For) and norm(l.target) == v for l in ast.walk(fn)) for v in (ie, oe))
+    good = len(adds) == 1 and guard and loops_ok and ie != oe and sorted(rems) == sorted([ie, oe])
     if good:
         # the re-joined edge inherits key, reg and reg_type from the edges it replaces (attribute propagation, as in _add)
         env = {norm(n.targets[0]): norm(n.value) for n in ast.walk(fn) if isinstance(n, ast.Assign) and len(n.targets) == 1}
         a = adds[0]
         key = env.get(norm(a.args[2]), norm(a.args[2])) if len(a.args) > 2 else ""
-        good = key in ("in_edge[2]", "out_edge[2]")
+        good = key in (f"{ie}[2]", f"{oe}[2]")
         for kw in ("reg", "reg_type"):
             v = get_kw(a, kw)
             r = env.get(norm(v), norm(v)) if v is not None else ""
-            good = good and r in (f"self.dag.edges[in_edge]['{kw}']", f"self.dag.edges[out_edge]['{kw}']")
+            good = good and r in (f"self.dag.edges[{ie}]['{kw}']", f"self.dag.edges[{oe}]['{kw}']")
     if good:
         ctx.ok("edge.keys", m, adds[0], what="_remove_node re-joins in/out edges of equal key and removes all of them")
     else:
